@@ -555,9 +555,9 @@ type BoundsResult struct {
 
 // contract: linear pre-conditions over parameters.
 type paramFact struct {
-	lo   string // "0" | "pN" | "len(pN)"
-	hi   string
-	k    int64 // lo <= hi + k
+	lo string // "0" | "pN" | "len(pN)"
+	hi string
+	k  int64 // lo <= hi + k
 }
 
 var requiresTable = map[string][]paramFact{
@@ -575,7 +575,7 @@ var requiresTable = map[string][]paramFact{
 // canonical site expression, never by line).
 var residualTable = map[string]string{
 	"rules.patternToRegexp: (*strings.Replacer).Replace(gload<github.com/AdguardTeam/urlfilter/rules.specialCharReplacer>,pattern)[2:(len((*strings.Replacer).Replace(gload<github.com/AdguardTeam/urlfilter/rules.specialCharReplacer>,pattern))-1)]": "the escaped text starts with \"||\" here; it cannot be exactly \"||\" because the pattern \"||\" returns early and the escape table never shortens its input, so len >= 3 (string-content reasoning, outside the linear domain)",
-	"(*filterlist.RuleStorageScanner).Scan: s.Scanners[(1+s.currentScannerIdx)]":                                                                                                                                                                                    "object invariant 0 <= currentScannerIdx < len(Scanners): the field is written only in this method (0, then +1 under the guard idx != len-1), checked by the who-may-write rule below",
+	"(*filterlist.RuleStorageScanner).Scan: s.Scanners[(1+s.currentScannerIdx)]": "object invariant 0 <= currentScannerIdx < len(Scanners): the field is written only in this method (0, then +1 under the guard idx != len-1), checked by the who-may-write rule below",
 }
 
 func paramTerm(u *U, ps []*E, s string) *E {
@@ -674,12 +674,12 @@ func posKey(p *Prog, pos token.Pos) string {
 
 func auditFunc(c *Ctx, fn *ssa.Function, resid map[string]bool) []BoundsResult {
 	type site struct {
-		in       ssa.Instruction
-		x        ssa.Value
-		lo, hi   ssa.Value // index sites: lo=index, hi=nil
-		isIndex  bool
-		max      ssa.Value
-		act      *Summary // inlined activation the site belongs to (nil: fn itself)
+		in      ssa.Instruction
+		x       ssa.Value
+		lo, hi  ssa.Value // index sites: lo=index, hi=nil
+		isIndex bool
+		max     ssa.Value
+		act     *Summary // inlined activation the site belongs to (nil: fn itself)
 	}
 	var sites []site
 	var curAct *Summary
@@ -831,9 +831,9 @@ func auditFunc(c *Ctx, fn *ssa.Function, resid map[string]bool) []BoundsResult {
 
 // linInline: helpers whose index results are correlated with the guards of their return sites.
 var linInline = map[string]bool{
-	"rules.findCosmeticRuleMarker": true,
-	"proxy.findBodyInjectionIndex": true,
-	"rules.isRegexPattern":         true,
+	"rules.findCosmeticRuleMarker":     true,
+	"proxy.findBodyInjectionIndex":     true,
+	"rules.isRegexPattern":             true,
 	"(*rules.NetworkRule).IsRegexRule": true,
 }
 
